@@ -243,6 +243,31 @@ func gen(g *core.G) {
 	}
 	emitU(u1, 10, g.Thorough())
 	emitU(u2[len(u1):], 3*g.Scale, false)
+	// ci-Enums (and cs-Enums) made by the CONSTRUCTOR from value lists in every mix of spellings and every order, and the same as type
+	// TEXT (the creator's path), against every word in every spelling, the empty string and strings in no list; the case family
+	lists := lat.EnumSpellingLists(g.Thorough(), g.Rng.Intn)
+	for i, vs := range lists {
+		for _, ci := range []bool{true, false} {
+			t := lat.EnumRaw(ci, vs...).String()
+			txt := lat.Txt(lat.EnumText(ci, vs)).String()
+			for _, s := range lat.CaseStrings() {
+				g.Emit("inst " + t + " " + lat.VS(s).String())
+				if g.Thorough() || (i+len(s))%3 == 0 {
+					g.Emit("inst " + txt + " " + lat.VS(s).String())
+				}
+			}
+			if i%5 == 0 { // nested: the element type of an Array, a Variant member, a Struct member
+				g.Emit("inst " + lat.Arr(lat.EnumRaw(ci, vs...), 0, 3).String() + " " + lat.VA(lat.VS("ab"), lat.VS("c")).String())
+				g.Emit("inst " + lat.Var(lat.Int(0, 1), lat.EnumRaw(ci, vs...)).String() + " " + lat.VS("aB").String())
+				g.Emit("inst " + lat.Struct(lat.Mem("k", false, lat.EnumRaw(ci, vs...))).String() + " " + lat.VH(lat.Entry{K: lat.VS("k"), V: lat.VS("C")}).String())
+			}
+		}
+	}
+	for _, t := range lat.CaseFamily() {
+		for _, s := range lat.CaseFamilyStrings() {
+			g.Emit("inst " + t.String() + " " + lat.VS(s).String())
+		}
+	}
 	// the regexp matcher on the whole pool
 	for _, src := range lat.PatSources() {
 		for _, s := range lat.Strings() {
